@@ -10,13 +10,16 @@ interleaved with the writer, is explored and the stored per-patch multisets are 
 from __future__ import annotations
 
 import itertools
+import math
 import os
+import shutil
 
 import numpy as np
 
 from vlib import ref, runner, yawx
 
 PROPERTY = "C02"
+FANOUT_CHUNK = 8  # the parallel cases are heavy: small chunks keep the 16 workers balanced
 LEVEL = "model_checking"
 RULE = (
     "sequential lattice: n in 1..7(|10) x chunksize {1,2,3,n-1,n,n+1,None} x source {data frame, FITS, HDF5, "
@@ -88,11 +91,12 @@ def cases(tier, seed):
     for W in Ws:
         for n in range(1, (6 if tier == "quick" else 8) + 1):
             for cs in chunk_sizes(n):
-                if tier == "quick" and cs not in (2, 3, n, None):
-                    continue
+                nchunks = 1 if cs is None else -(-n // cs)
+                if math.factorial(W) ** nchunks > (250 if tier == "quick" else 8000):
+                    continue  # bound on the number of delivery orders per case
                 for mode in ("centres", "ids"):
                     out.append(dict(part="par", W=W, n=n, chunksize=cs, mode=mode, cols="wz"))
-    out.sort(key=lambda c: (c["part"] != "seq", c["n"]))
+    out.sort(key=lambda c: (c["part"] == "seq", -c["n"]))  # heavy (parallel) cases first
     return out
 
 
@@ -331,7 +335,90 @@ def run_random(case, d):
 
 
 def run_par(case):
-    return dict(status="skip", skip_rule="parallel part not built yet")
+    """All delivery orders of the reader -> pool -> writer-process pipeline (virtual multiprocessing)."""
+    import pandas as pd
+    from yaw import AngularCoordinates, Catalog
+    from vlib import vmp
+
+    W, n, cs, mode = case["W"], case["n"], case["chunksize"], case["mode"]
+    ra, dec, w, z, pid = records(n)
+    cols = dict(ra=ra, dec=dec, w=w, z=z)
+    kw = dict(ra_name="ra", dec_name="dec", weight_name="w", redshift_name="z", chunksize=cs)
+    if mode == "ids":
+        cols["pid"] = pid
+        kw["patch_name"] = "pid"
+    else:
+        kw["patch_centers"] = AngularCoordinates(np.deg2rad(CENTRES[: min(3, n)]))
+    df = pd.DataFrame(cols)
+    rows, patch = expected_records(dict(case, degrees=True), cols)
+    vmp.install(workers=W)
+    found = []
+
+    def body():
+        d = runner.fresh_dir("c02p")
+        v = []
+        cat = Catalog.from_dataframe(os.path.join(d, "cat"), df, **kw)
+        stored = compare_catalog(cat, rows, patch, "par", v)
+        if not v:
+            compare_catalog(Catalog(os.path.join(d, "cat")), rows, patch, "par/reopened", v)
+        shutil.rmtree(d, ignore_errors=True)
+        found.extend(v)
+        return runner.digest(canon(stored))
+
+    def observe(ex):
+        if ex["verdict"] != "ok":
+            return f"DEADLOCK {ex['deadlock']}"
+        if ex["exc"] is not None:
+            return f"EXC {type(ex['exc']).__name__}: {str(ex['exc'])[:100]}"
+        if any(code != 0 for code, _ in ex["exitcodes"]):
+            return f"WRITER-DIED {ex['exitcodes']}"
+        return ex["value"]
+
+    try:
+        # focus=-1: the order-mode pools (load_patches) keep submission order here, their orders are C05's
+        res = vmp.explore(body, observe=observe, max_exec=5000, focus=-1)
+        cross = None
+        if n == 2 and cs is None and W == 2 and mode == "ids":
+            # cross-check of the partial-order reduction on the smallest instance: the unreduced search
+            # must produce exactly the same set of outcomes
+            full = vmp.explore(body, observe=observe, reduce=False, max_exec=8000, focus=-1)
+            cross = dict(executions=full["executions"], capped=full["capped"],
+                         same=set(full["outcomes"]) == set(res["outcomes"]))
+    finally:
+        vmp.uninstall()
+        yawx.sequential()
+    if res["capped"]:
+        raise RuntimeError(f"execution cap hit for {case}")
+    viols = []
+    good = [d for d in res["outcomes"] if not d.startswith(("DEADLOCK", "EXC", "WRITER"))]
+    for dig, o in res["outcomes"].items():
+        if dig.startswith(("DEADLOCK", "EXC", "WRITER")):
+            viols.append(dict(signature=f"C02/par/{dig.split()[0].lower()}",
+                              what=f"parallel creation (W={W}, n={n}, chunksize={cs}) ends in {dig} under "
+                                   f"schedule {o['trace']}", detail=dict(choices=o["trace"])))
+    if len(good) > 1:
+        viols.append(dict(signature="C02/par/schedule-dependent",
+                          what=f"stored records depend on the delivery order (W={W}, n={n}, chunksize={cs}): "
+                               f"{len(good)} different outcomes"))
+    for v in found[:2]:
+        viols.append(v)
+    if cross is not None and not cross["capped"] and not cross["same"]:
+        raise RuntimeError(f"partial-order reduction changes the outcome set for {case}")
+    counters = dict(executions=res["executions"], states=res["states"], transitions=res["transitions"],
+                    schedules_nondefault=res["nondefault"])
+    if cross is not None:
+        counters["unreduced_crosscheck_executions"] = cross["executions"]
+        counters["unreduced_crosscheck_capped"] = int(cross["capped"])
+    nchunks = 1 if cs is None else -(-n // cs)
+    out = dict(nontrivial=bool(res["nondefault"] > 0 and n >= 2), key=case, counters=counters,
+               outcomes=sorted(res["outcomes"]),
+               sample=dict(case, executions=res["executions"], chunks=nchunks))
+    if viols:
+        uniq = {}
+        for v in viols:
+            uniq.setdefault(v["signature"], v)
+        out.update(status="violation", violations=list(uniq.values()))
+    return out
 
 
 def run_case(case):
